@@ -1,5 +1,5 @@
 (** C14 — theorems (statements only; proofs are in Proofs.v). *)
-From Coq Require Import NArith ZArith List Bool FMapPositive Permutation.
+From Coq Require Import NArith ZArith List Bool FMapPositive Permutation Floats.SpecFloat.
 Import ListNotations.
 From OBI.C14 Require Import Model Proofs.
 Open Scope N_scope.
@@ -137,7 +137,7 @@ Theorem C14_predicates : forall t s x p, resolve t (seq_taxid s) = Some x -> pat
      require t s rs = zb (forallb (fun r => existsb (has_rank_at t r) p) rs)) /\
   (forall r, rank_listed t r = true ->
      atrank_attr t s r = match find (has_rank_at t r) p with Some z => Z.of_N z | None => (-1)%Z end) /\
-  (forall c y, s_slot s = Some c -> resolve t c = Some y -> slotsub t s = zb (mem y p)).
+  (forall c y, s_slot s = Some c -> taxon_of t c = Some y -> slotsub t s = zb (mem y p)).
 Proof. exact predicates_known. Qed.
 
 (** ... and a sequence whose taxid is unknown is not selected by restrict-to / require-rank, is kept
@@ -152,7 +152,7 @@ Proof. exact predicates_unknown. Qed.
 (** Names (after the AddNewName fix): IsNameEqual holds exactly for the scientific name and for every
     alternate name listed in names.dmp for that taxon - the first one included. *)
 Theorem C14_names_found : forall rows x n sn, sci_name rows x = Some sn ->
-  (name_equal rows x n = Some true <-> (sn = n \/ In (x, n, false) rows)).
+  (name_equal rows x n = Some true <-> (sn = n \/ exists c, In (x, n, c) rows /\ beqb c sci_class = false)).
 Proof. exact names_found. Qed.
 
 Example C14_wlca_nonvacuous :
@@ -163,6 +163,205 @@ Proof.
   split; [discriminate|]. split.
   - intros k w [H|[H|[H|[]]]]; inversion H; subst; split; try reflexivity; vm_compute; discriminate.
   - split; [apply load_alias_ok|]. vm_compute. split; reflexivity.
+Qed.
+
+(** * Round 2 *)
+
+(** ** Taxonomy.LCA(sequence, threshold) for ANY threshold and ANY arithmetic of rmax ([score]: IEEE binary64 [sc_b64 thr],
+    exact rationals [sc_q n d], or threshold 1.0 [sc_one]).  [wld_all] = every outcome the Go loop can produce (taxonMax is
+    whichever maximal key of the level map is met first), [wld] = the run that takes the first maximum in list order. *)
+
+(** weighMax is the maximum of the level table and the taxon picked reaches it *)
+Theorem C14_maxw_is_the_level_maximum : forall ts, is_maxw ts (maxw ts) /\
+  match pick ts with None => maxw ts = 0%Z | Some h => In h (heads ts) /\ head_weight h ts = maxw ts /\ (0 < maxw ts)%Z end.
+Proof. exact maxw_is. Qed.
+
+Theorem C14_wld_first_is_possible : forall R (sc : score R) fuel ts r tmax l, wld_all sc fuel ts r tmax = Some l ->
+  exists x, wld sc fuel ts r tmax = Some x /\ In x l.
+Proof. exact wld_in_all. Qed.
+
+(** no level whose cumulated share passes the threshold has two maximal children => exactly one possible outcome *)
+Theorem C14_wld_single_outcome_without_passing_tie : forall R (sc : score R) fuel ts r tmax, notie sc fuel ts r = true ->
+  wld_all sc fuel ts r tmax = option_map (fun x => [x]) (wld sc fuel ts r tmax).
+Proof. exact notie_single. Qed.
+
+(** the SET of possible outcomes is independent of the iteration order of the maps (list level) ... *)
+Theorem C14_wld_outcomes_order_independent : forall R (sc : score R) fuel ts ts' r tmax, Permutation ts ts' ->
+  match wld_all sc fuel ts r tmax, wld_all sc fuel ts' r tmax with
+  | Some l, Some l' => forall x, In x l <-> In x l'
+  | None, None => True
+  | _, _ => False
+  end.
+Proof. exact wld_all_perm. Qed.
+
+(** ... and at the level of the merged_taxid map of a sequence (keys resolved through aliases, weights of one taxon added) *)
+Theorem C14_wlcad_outcomes_order_independent : forall R (sc : score R) t m m', wf_tax t -> Permutation m m' ->
+  match wlcad sc t m, wlcad sc t m' with
+  | Some l, Some l' => forall x, In x l <-> In x l'
+  | None, None => True
+  | _, _ => False
+  end.
+Proof. exact wlcad_perm. Qed.
+
+(** hence: without a passing tie the answer (and rans) does not depend on the iteration order, for any threshold *)
+Theorem C14_wlca_order_independent_without_passing_tie : forall R (sc : score R) t m m', wf_tax t -> Permutation m m' ->
+  wlca_notie sc t m = true -> wlcad1 sc t m = wlcad1 sc t m'.
+Proof. exact wlcad1_perm_notie. Qed.
+
+(** with exact arithmetic and a threshold above one half a tie can never pass (two maximal children carry at most half
+    each): the answer is a function of the set of (taxid, count) pairs for EVERY input with counts >= 0 *)
+Theorem C14_wlca_rational_above_half_order_independent : forall tn td t m m', wf_tax t -> (0 < td)%Z -> (td < 2 * tn)%Z ->
+  (forall k w, In (k, w) m -> (0 <= w)%Z) -> Permutation m m' ->
+  wlcad1 (sc_q tn td) t m = wlcad1 (sc_q tn td) t m'.
+Proof. exact wlca_q_above_half_perm. Qed.
+
+(** at one half and below the answer does depend on the order: the witness observed on the real code (4 or 8) *)
+Theorem C14_wlca_order_independence_at_half_refuted :
+  Permutation [(5, 1%Z); (6, 1%Z); (8, 2%Z)] [(8, 2%Z); (5, 1%Z); (6, 1%Z)] /\
+  option_map fst (wlcad1 (sc_q 1 2) tie_tax [(5, 1%Z); (6, 1%Z); (8, 2%Z)]) = Some (Some 4) /\
+  option_map fst (wlcad1 (sc_q 1 2) tie_tax [(8, 2%Z); (5, 1%Z); (6, 1%Z)]) = Some (Some 8) /\
+  option_map fst (wlcad1 (sc_b64 b64_half) tie_tax [(5, 1%Z); (6, 1%Z); (8, 2%Z)]) = Some (Some 4) /\
+  option_map fst (wlcad1 (sc_b64 b64_half) tie_tax [(8, 2%Z); (5, 1%Z); (6, 1%Z)]) = Some (Some 8) /\
+  option_map (map (fun x : option N * spec_float * Z => fst (fst x))) (wlcad (sc_b64 b64_half) tie_tax [(5, 1%Z); (6, 1%Z); (8, 2%Z)]) = Some [Some 4; Some 8] /\
+  wlca_notie (sc_q 1 2) tie_tax [(5, 1%Z); (6, 1%Z); (8, 2%Z)] = false.
+Proof. exact tie_order_dependent. Qed.
+
+(** ** Characterisation of the descent (threshold > 0: a null share fails the test), for any arithmetic of rmax.
+    (1) on the trie of the root-first lineages: at the prefix [pi] the share is (heaviest continuation of pi) / (weight of the
+    lineages comparable with pi); while the cumulated share passes, go to A heaviest continuation. *)
+Theorem C14_wld_outcomes_walk_the_trie : forall R (sc : score R) ts0 (Inv : R -> Prop),
+  Inv (s_zero sc) -> (forall r w tt, Inv r -> (0 <= w)%Z -> (0 < tt)%Z -> Inv (s_mul sc r w tt)) ->
+  s_ge sc (s_zero sc) = false -> (forall r tt, Inv r -> (0 < tt)%Z -> s_ge sc (s_mul sc r 0%Z tt) = false) ->
+  forall fuel pi r tmax l, Inv r -> wld_all sc fuel (st pi ts0) r tmax = Some l ->
+  forall x, In x l -> trie_desc R sc ts0 pi r tmax x.
+Proof. exact wld_all_trie. Qed.
+
+(** (2) on the TREE of a well-formed taxonomy: every outcome is the initial answer (first test fails) or an outcome of
+    [tree_desc] from the root: at taxon a, M = the heaviest clade weight among the children of a, share = M / (weight of the
+    merged taxa that are in the clade of a or on its lineage); while rmax * share >= threshold go down to A child of weight M *)
+Theorem C14_wlca_descent_on_tree : forall R (sc : score R) (Inv : R -> Prop) t d, wf_tax t -> (forall e, In e d -> present t (fst e)) ->
+  Inv (s_zero sc) -> (forall r w tt, Inv r -> (0 <= w)%Z -> (0 < tt)%Z -> Inv (s_mul sc r w tt)) ->
+  s_ge sc (s_zero sc) = false -> (forall r tt, Inv r -> (0 < tt)%Z -> s_ge sc (s_mul sc r 0%Z tt) = false) ->
+  forall fuel r0 tmax l, Inv r0 -> wld_all sc fuel (map (wentry t) d) r0 tmax = Some l -> forall x, In x l ->
+    x = (tmax, r0) \/
+    exists root rk, get t root = Some (root, rk) /\ (0 < wsumf (fun _ => true) d)%Z /\
+       tree_desc R sc t d root (s_mul sc r0 (wsumf (fun _ => true) d) (wsumf (fun _ => true) d)) x.
+Proof. exact wlca_descent_on_tree. Qed.
+
+(** unconditional instances: exact rationals with any positive threshold tn/td; threshold 1.0 *)
+Theorem C14_wlca_descent_on_tree_rational : forall tn td t d, (0 < tn)%Z -> (0 < td)%Z -> wf_tax t -> (forall e, In e d -> present t (fst e)) ->
+  forall fuel tmax l, wld_all (sc_q tn td) fuel (map (wentry t) d) (1, 1)%Z tmax = Some l -> forall x, In x l ->
+    x = (tmax, (1, 1)%Z) \/
+    exists root rk, get t root = Some (root, rk) /\ (0 < wsumf (fun _ => true) d)%Z /\
+       tree_desc _ (sc_q tn td) t d root (s_mul (sc_q tn td) (1, 1)%Z (wsumf (fun _ => true) d) (wsumf (fun _ => true) d)) x.
+Proof. exact wlca_descent_on_tree_q. Qed.
+
+Theorem C14_wlca_descent_on_tree_threshold1 : forall t d, wf_tax t -> (forall e, In e d -> present t (fst e)) ->
+  forall fuel tmax l, wld_all sc_one fuel (map (wentry t) d) true tmax = Some l -> forall x, In x l ->
+    x = (tmax, true) \/
+    exists root rk, get t root = Some (root, rk) /\ (0 < wsumf (fun _ => true) d)%Z /\
+       tree_desc _ sc_one t d root (s_mul sc_one true (wsumf (fun _ => true) d) (wsumf (fun _ => true) d)) x.
+Proof. exact wlca_descent_on_tree_one. Qed.
+
+(** the two hypotheses hold e.g. for the threshold-1.0 arithmetic; the clade weights read the tree *)
+Example C14_descent_hypotheses_nonvacuous :
+  s_ge sc_one (s_zero sc_one) = false /\ (forall r tt, (0 < tt)%Z -> s_ge sc_one (s_mul sc_one r 0%Z tt) = false) /\
+  cladew tie_tax [(5, 1%Z); (6, 1%Z); (8, 2%Z)] 4 = 2%Z /\ compw tie_tax [(5, 1%Z); (6, 1%Z); (8, 2%Z); (3, 7%Z)] 4 = 9%Z.
+Proof.
+  split; [reflexivity|]. split; [|vm_compute; split; reflexivity].
+  intros r tt H. simpl. destruct tt; try discriminate; try reflexivity. apply andb_false_r.
+Qed.
+
+(** a threshold that every score passes (<= 0, i.e. --lca-error >= 1): the loop never exits *)
+Theorem C14_wld_never_returns_when_every_score_passes : forall R (sc : score R), (forall r, s_ge sc r = true) ->
+  forall fuel ts r tmax, wld sc fuel ts r tmax = None.
+Proof. exact wld_diverges. Qed.
+
+(** threshold 1.0 (the round-1 model [wlca]) is the instance [sc_one]; there no tie passes, so for all counts >= 0
+    (zero counts included - they do not count) the answer is independent of the order *)
+Theorem C14_wlca_threshold1_is_instance : forall t m, wlca t m = option_map fst (wlcad1 sc_one t m).
+Proof. exact wlca_is_wlcad1_one. Qed.
+
+Theorem C14_wlca_threshold1_order_independent_nonneg : forall t m m', wf_tax t -> (forall k w, In (k, w) m -> (0 <= w)%Z) ->
+  Permutation m m' -> wlca t m = wlca t m'.
+Proof. exact wlca_perm_nonneg. Qed.
+
+(** ... and it is the LCA of the taxa designated by a key of POSITIVE count (zero counts do not count; aliases add up) *)
+Theorem C14_wlca_threshold1_nonneg : forall t m, wf_tax t -> alias_ok t ->
+  (forall k w, In (k, w) m -> (0 <= w)%Z /\ resolve t k <> None) -> (exists k w, In (k, w) m /\ (0 < w)%Z) ->
+  exists z, wlca t m = Some (Some z) /\ present t z /\
+    forall u, anc t z u <-> forall k w, In (k, w) m -> (0 < w)%Z -> exists x, resolve t k = Some x /\ anc t x u.
+Proof. exact wlca_char_nonneg. Qed.
+
+(** TaxonomicDistribution: node x weighs the sum of the counts of the keys designating x (after the fix) *)
+Theorem C14_distribution_sums_aliases : forall t m d, distribution t m [] = Some d ->
+  NoDup (map fst d) /\
+  (forall x, In x (map fst d) <-> exists k w0, In (k, w0) m /\ resolve t k = Some x) /\
+  (forall x, accw d x = wsum t m x).
+Proof. exact distribution_sums. Qed.
+
+(** before the fix (overwrite) the LCA at threshold 1.0 of {alias of 7: 0, 7: 1, 5: 2} followed the iteration order *)
+Theorem C14_distribution_overwrite_refuted :
+  wlca_ow tie_tax [(99, 0%Z); (7, 1%Z); (5, 2%Z)] = Some (Some 3) /\
+  wlca_ow tie_tax [(7, 1%Z); (99, 0%Z); (5, 2%Z)] = Some (Some 5) /\
+  wlca tie_tax [(99, 0%Z); (7, 1%Z); (5, 2%Z)] = Some (Some 3) /\
+  wlca tie_tax [(7, 1%Z); (99, 0%Z); (5, 2%Z)] = Some (Some 3) /\
+  option_map (map snd) (wlcad sc_one tie_tax [(99, 4%Z); (7, 1%Z); (5, 2%Z)]) = Some [7%Z].
+Proof. exact overwrite_order_dependent. Qed.
+
+(** ** Rows outside the tree (e.g. a dangling parent id) do not change any answer about the taxa of the tree *)
+Theorem C14_rows_outside_tree_harmless : forall t t' x p, extends t t' -> path t x = Some p ->
+  path t' x = Some p /\
+  (forall y q, path t y = Some q -> lca t' x y = lca t x y) /\
+  (forall a, subclade t' x a = subclade t x a) /\
+  (forall s, belongs t' x s = belongs t x s) /\
+  (forall r, at_rank t' x r = at_rank t x r /\ has_rank t' x r = has_rank t x r).
+Proof. exact extends_queries. Qed.
+
+Theorem C14_load_extra_rows_extends : forall rows extra merged merged',
+  (forall row, In row extra -> get (load rows merged) (fst (fst row)) = None) ->
+  extends (load rows merged) (load (rows ++ extra) merged').
+Proof. exact load_extends. Qed.
+
+(** ** Taxonomy.Taxon(interface{}): "n", "+n", "...TX:n..." (first match) and the int n designate the same taxon;
+    any other dynamic type is looked up as taxid 0 *)
+Theorem C14_taxon_forms_agree : forall t d, all_digits d = true -> (digits_val 0 d < int_lim)%Z ->
+  taxon_of t (FStr d) = taxon_of t (FInt (digits_val 0 d)) /\
+  taxon_of t (FStr (43 :: d)) = taxon_of t (FInt (digits_val 0 d)) /\
+  (forall pre suf, (forall c, In c pre -> c <> 84) -> (match suf with [] => True | c :: _ => is_digit c = false end) ->
+     taxon_of t (FStr (pre ++ 84 :: 88 :: 58 :: d ++ suf)) = taxon_of t (FInt (digits_val 0 d))) /\
+  taxon_of t FOther = resolve t 0.
+Proof. exact forms_agree. Qed.
+
+(** ** Names on byte strings: IsNameMatching for any regexp oracle; the scientific name is the last such row *)
+Theorem C14_names_matching : forall (P : Type) (rm : P -> bstr -> bool) rows x pat sn, sci_name rows x = Some sn ->
+  (name_matching rm rows x pat = Some true <->
+   (rm pat sn = true \/ exists n c, In (x, n, c) rows /\ beqb c sci_class = false /\ rm pat n = true)).
+Proof. exact names_matching. Qed.
+
+Theorem C14_scientific_name_is_last_row : forall rows x,
+  match sci_name rows x with
+  | Some sn => exists l1 l2 c, rows = l1 ++ (x, sn, c) :: l2 /\ beqb c sci_class = true /\
+                               forall r, In r l2 -> (is_sci r && (fst (fst r) =? x))%bool = false
+  | None => forall r, In r rows -> (is_sci r && (fst (fst r) =? x))%bool = false
+  end.
+Proof. exact sci_name_last. Qed.
+
+(** a names.dmp line in the NCBI layout is read back as (taxid, name, class); the unique-name column is never read *)
+Theorem C14_names_line_parsed : forall d name uniq class,
+  all_digits d = true -> (digits_val 0 d < int_lim)%Z -> no_bar name -> no_bar uniq -> no_bar class -> tight name -> tight class ->
+  parse_name_line (d ++ [9] ++ 124 :: ([9] ++ name ++ [9]) ++ 124 :: ([9] ++ uniq ++ [9]) ++ 124 :: ([9] ++ class ++ [9]) ++ 124 :: [])
+  = Some (digits_val 0 d, name, class).
+Proof. exact parse_name_line_ncbi. Qed.
+
+Example C14_round2_nonvacuous :
+  wf_tax tie_tax /\ wlca_notie (sc_b64 b64_half) tie_tax [(5, 2%Z); (8, 1%Z)] = true /\
+  option_map fst (wlcad1 (sc_b64 b64_half) tie_tax [(5, 2%Z); (8, 1%Z)]) = Some (Some 5) /\
+  all_digits [49;50] = true /\ taxon_of tie_tax (FStr [120;32;84;88;58;57;56;32]) = Some 7 /\
+  extends (load [(1,1,0); (2,1,1)] []) (load ([(1,1,0); (2,1,1)] ++ [(9,77,1)]) []).
+Proof.
+  split; [apply wf_check_sound; vm_compute; reflexivity|]. split; [vm_compute; reflexivity|]. split; [vm_compute; reflexivity|].
+  split; [reflexivity|]. split; [vm_compute; reflexivity|]. apply load_extends. intros row [<-|[]]. vm_compute. reflexivity.
 Qed.
 
 Print Assumptions C14_path.
@@ -187,3 +386,27 @@ Print Assumptions C14_predicates.
 Print Assumptions C14_predicates_unknown_taxid.
 Print Assumptions C14_names_found.
 Print Assumptions C14_subclade_iff_lca.
+Print Assumptions C14_maxw_is_the_level_maximum.
+Print Assumptions C14_wld_first_is_possible.
+Print Assumptions C14_wld_single_outcome_without_passing_tie.
+Print Assumptions C14_wld_outcomes_order_independent.
+Print Assumptions C14_wlcad_outcomes_order_independent.
+Print Assumptions C14_wlca_order_independent_without_passing_tie.
+Print Assumptions C14_wlca_rational_above_half_order_independent.
+Print Assumptions C14_wlca_order_independence_at_half_refuted.
+Print Assumptions C14_wld_never_returns_when_every_score_passes.
+Print Assumptions C14_wlca_threshold1_is_instance.
+Print Assumptions C14_wlca_threshold1_order_independent_nonneg.
+Print Assumptions C14_distribution_sums_aliases.
+Print Assumptions C14_distribution_overwrite_refuted.
+Print Assumptions C14_rows_outside_tree_harmless.
+Print Assumptions C14_load_extra_rows_extends.
+Print Assumptions C14_taxon_forms_agree.
+Print Assumptions C14_names_matching.
+Print Assumptions C14_scientific_name_is_last_row.
+Print Assumptions C14_wld_outcomes_walk_the_trie.
+Print Assumptions C14_wlca_descent_on_tree.
+Print Assumptions C14_wlca_threshold1_nonneg.
+Print Assumptions C14_names_line_parsed.
+Print Assumptions C14_wlca_descent_on_tree_rational.
+Print Assumptions C14_wlca_descent_on_tree_threshold1.
